@@ -11,6 +11,12 @@ VERIF_SUITE_MONITORS  comma list of monitors to arm:
     C14  operands of operators / copies / get-accessors / frame helpers are bit-identical after the call and the
          returned payload shares no memory with them; at session end default-constructed objects are still the
          identity / zero and no mutable default argument changed.
+    C05  coherence of a serial arm as a pre/post contract around every public Arm/Robot method the suite calls: if
+         reported tool pose == PoE(published home pose, published screws, stored joint vector) held on entry, it holds
+         on exit (1e-7, scaled as in the C05 check), and the base pose is finite rigid.
+    C10  coherence of a Stewart platform around every public SP/Robot method: leg lengths == joint-to-joint distances,
+         relative transform == inv(bottom) * top, and the joints keep their plate-fixed coordinates (except through
+         spinCustom / construction), 1e-9 scaled; the known un-invert finding is keyed exactly as in the C10 check.
 VERIF_SUITE_OUT       path of the JSON report written at session end.
 """
 import functools
@@ -336,6 +342,189 @@ def _defaults_table(mods):
     return tab
 
 
+
+
+# ------------------------------------------------------------------------------------------------ C05 / C10
+def _poe(M, Sl, th):
+    from vmon.oracle import se3
+    return se3.poe_space(np.asarray(M, dtype=float), np.asarray(Sl, dtype=float), np.asarray(th, dtype=float).reshape(-1))
+
+
+def _quiet(fn):
+    """Monitor code reads the objects through wrapped public methods: those reads must not be monitored themselves."""
+    @functools.wraps(fn)
+    def w(*a, **k):
+        _depth[0] += 1
+        try:
+            return fn(*a, **k)
+        finally:
+            _depth[0] -= 1
+    return w
+
+
+@_quiet
+def arm_state(arm):
+    """(error, tolerance) of 'reported tool pose == pose implied by the stored joint state', or None if unreadable."""
+    try:
+        th = np.asarray(arm._theta, dtype=float).reshape(-1)
+        Sl = np.asarray(arm.getScrewList(), dtype=float)
+        M = np.asarray(arm._end_effector_home.TM, dtype=float)
+        T = np.asarray(arm._end_effector_pos_global.TM, dtype=float)
+        if Sl.shape != (6, th.size) or not (np.all(np.isfinite(th)) and np.all(np.isfinite(T)) and np.all(np.isfinite(M))):
+            return None
+        want = _poe(M, Sl, th)
+    except Exception:
+        return None
+    sc = max(1.0, float(np.linalg.norm(want[:3, 3])))
+    band = bool(np.any((np.abs(th) > 0) & (np.abs(th) < 2e-6)))
+    big = float(np.max(np.abs(th))) if th.size else 0.0
+    t = (2e-6 * th.size if band else 1e-7) * sc + 1e-14 * big * sc
+    return float(np.abs(T - want).max()), t
+
+
+@_quiet
+def sp_state(sp):
+    try:
+        Bm = np.asarray(sp.getBottomT().TM, dtype=float)
+        Tm = np.asarray(sp.getTopT().TM, dtype=float)
+        bj = np.asarray(sp.getBottomJoints(), dtype=float)
+        tj = np.asarray(sp.getTopJoints(), dtype=float)
+        L = np.asarray(sp.getLens(), dtype=float).reshape(-1)
+        rel = np.asarray(sp.getCurrentLocalTransform().TM, dtype=float)
+    except Exception:
+        return None
+    if bj.shape != (3, 6) or tj.shape != (3, 6) or L.shape != (6,):
+        return None
+    if not all(np.all(np.isfinite(x)) for x in (Bm, Tm, bj, tj, L, rel)):
+        return None
+    return Bm, Tm, bj.copy(), tj.copy(), L.copy(), rel
+
+
+def sp_errors(st):
+    Bm, Tm, bj, tj, L, rel = st
+    d = np.linalg.norm(tj - bj, axis=0)
+    e2 = float(np.abs(L - d).max()) / max(1.0, float(d.max()))
+    want = np.linalg.inv(Bm) @ Tm
+    e3 = float(np.abs(rel - want).max()) / max(1.0, float(np.abs(want[:3, 3]).max()))
+    return e2, e3
+
+
+def sp_local(st):
+    Bm, Tm, bj, tj, L, rel = st
+    hb = np.vstack([bj, np.ones((1, 6))])
+    ht = np.vstack([tj, np.ones((1, 6))])
+    return (np.linalg.inv(Bm) @ hb)[:3], (np.linalg.inv(Tm) @ ht)[:3]
+
+
+_uninverted = [False]
+KIN_SKIP = {"draw", "addCamera", "updateCams", "anon", "setDrawingParameters"}
+
+
+def _wrap_kin(orig, name, Arm, SP):
+    @functools.wraps(orig)
+    def wrapper(self, *args, **kwargs):
+        outer = _depth[0] == 0
+        kind = "Arm" if isinstance(self, Arm) else "SP" if isinstance(self, SP) else None
+        armed = outer and ((kind == "Arm" and "C05" in WHICH) or (kind == "SP" and "C10" in WHICH))
+        pre = None
+        if armed and name != "__init__":
+            if kind == "Arm":
+                a = arm_state(self)
+                pre = a is not None and a[0] <= a[1]
+            else:
+                st0 = sp_state(self)
+                pre = st0 is not None and max(sp_errors(st0)) <= 1e-9
+                _uninverted[0] = False
+        _depth[0] += 1
+        try:
+            r = orig(self, *args, **kwargs)
+        except BaseException:
+            if armed:
+                _bump("raised", ("C05:Arm." if kind == "Arm" else "C10:SP.") + name)
+            raise
+        finally:
+            _depth[0] -= 1
+        if not armed:
+            return r
+        label = ("C05:Arm." if kind == "Arm" else "C10:SP.") + name
+        if name == "__init__":
+            pre = True
+        if not pre:
+            _bump("skipped_pre", label)
+            return r
+        if kind == "Arm":
+            a = arm_state(self)
+            if a is None:
+                _bump("skipped_pre", label + "/unreadable_after")
+                return r
+            _bump("checked", label)
+            if not (a[0] <= a[1]):
+                _viol("C05", "b.eepos", "suite/eepos_not_pose_of_joint_state/after=" + name, {"err": a[0], "tol": a[1]})
+            try:
+                Bp = np.asarray(self._base_pos_global.TM, dtype=float)
+                if not _se3_loose(Bp):
+                    _viol("C05", "c.base", "suite/base_not_rigid/after=" + name, {"base": Bp.tolist()})
+            except Exception as e:
+                _viol("C05", "c.base", "suite/base_unreadable/after=" + name, {"exc": repr(e)[:200]})
+        else:
+            st1 = sp_state(self)
+            if st1 is None:
+                _viol("C10", "I1.joints", "suite/nonfinite_or_unreadable_state/after=" + name, {})
+                return r
+            _bump("checked", label)
+            e2, e3 = sp_errors(st1)
+            if e2 > 1e-9:
+                _viol("C10", "I2.lengths", "suite/lengths_not_joint_distances/after=" + name, {"rel_err": e2})
+            if e3 > 1e-9:
+                _viol("C10", "I3.relative", "suite/relative_not_inv_bottom_top/after=" + name, {"rel_err": e3})
+            if name not in ("__init__", "spinCustom"):
+                lb0, lt0 = sp_local(st0)
+                lb1, lt1 = sp_local(st1)
+                sc = max(1.0, float(np.abs(st1[0][:3, 3]).max()) + float(np.abs(st1[1][:3, 3]).max()) + float(np.abs(lb0).max()))
+                e1 = max(float(np.abs(lb1 - lb0).max()), float(np.abs(lt1 - lt0).max()))
+                if e1 > 1e-9 * sc:
+                    key = "joints_not_plate_times_local/after_un-invert" if _uninverted[0] else "suite/joints_left_their_plate/after=" + name
+                    _viol("C10", "I1.joints", key, {"err": e1, "scale": sc})
+        if len(S["samples"]) < 12 and S["checked"].get(label, 0) == 1:
+            S["samples"].append({"monitor": label.split(":")[0], "call": label.split(":")[1],
+                                 "test": os.environ.get("PYTEST_CURRENT_TEST", "?").split(" ")[0]})
+        return r
+    return wrapper
+
+
+def _se3_loose(M):
+    if M.shape != (4, 4) or not np.all(np.isfinite(M)):
+        return False
+    R = M[:3, :3]
+    return bool(np.abs(M[3] - np.array([0, 0, 0, 1.0])).max() < ABS5 and np.abs(R.T @ R - np.eye(3)).max() < ABS5 and abs(np.linalg.det(R) - 1) < ABS5)
+
+
+def _install_kin():
+    import basic_robotics.kinematics.arm_model as m_arm
+    import basic_robotics.kinematics.sp_model as m_sp
+    import basic_robotics.kinematics.robot_model as m_rb
+    Arm, SP, Robot = m_arm.Arm, m_sp.SP, m_rb.Robot
+    for cls, pref in ((Robot, "Robot"), (Arm, "Arm"), (SP, "SP")):
+        if (pref == "Arm" and "C05" not in WHICH) or (pref == "SP" and "C10" not in WHICH):
+            continue
+        for name, f in list(cls.__dict__.items()):
+            if not isinstance(f, types.FunctionType) or name in KIN_SKIP or (name.startswith("_") and name != "__init__"):
+                continue
+            setattr(cls, name, _wrap_kin(f, name, Arm, SP))
+            S["installed"].append(("C05:" if pref != "SP" else "C10:") + pref + "." + name)
+            if pref == "Robot":
+                S["installed"].append("C10:" + pref + "." + name)
+    if "C10" in WHICH and "_fixUpsideDown" in SP.__dict__:
+        orig = SP.__dict__["_fixUpsideDown"]
+
+        @functools.wraps(orig)
+        def fix_rec(self, *a, **k):
+            _uninverted[0] = True
+            _bump("checked", "C10:corrective.un-invert")
+            return orig(self, *a, **k)
+        SP._fixUpsideDown = fix_rec
+
+
 _MODS = []
 _TABLE0 = {}
 
@@ -411,8 +600,10 @@ def _final_checks():
 
 # ------------------------------------------------------------------------------------------------ pytest hooks
 def pytest_configure(config):
-    if WHICH:
+    if WHICH & {"C03", "C14"}:
         _install()
+    if WHICH & {"C05", "C10"}:
+        _install_kin()
 
 
 def pytest_runtest_setup(item):
